@@ -30,12 +30,23 @@ FilesNeeded(c) == {"workflow.yaml"} \cup (IF c.depth >= 2 THEN {L2(c)} ELSE {}) 
                   \cup (IF c.shared THEN {"shared.yaml"} ELSE {})
 \* CLI exit codes (cmd/arcaflow/main.go)
 ExitCode(parseOK, runErr, flag) == IF ~parseOK THEN 1 ELSE IF runErr THEN 3 ELSE IF flag THEN 2 ELSE 0
-VARIABLE todo
-Init == todo = Configs
+\* The command-line program (cmd/arcaflow): what it prints and the exit code it ends with.  fault = none: the run returns
+\* the producible output; missing-workflow / invalid-workflow: nothing is parsed; run-fails: the only step crashes and
+\* no output is producible.  The printed output id and data are those of direct execution.
+Faults == {"none", "missing-workflow", "invalid-workflow", "run-fails"}
+CliCases == [fault : Faults, out : Outs, explicit : Explicit, dir : DirModes]
+CliExit(c) == ExitCode(c.fault \notin {"missing-workflow", "invalid-workflow"}, c.fault = "run-fails",
+                       IF c.explicit = "none" THEN c.out = "error" ELSE c.explicit = "flag_true")
+CliPrints(c) == c.fault = "none"
+VARIABLES todo, ctodo
+Init == todo = Configs /\ ctodo = CliCases
 Next == todo # {} /\ LET c == CHOOSE x \in todo : TRUE IN
           /\ PrintT(<<"CONFIG", ToJson([c |-> c, l2 |-> L2(c), l3 |-> L3(c), id |-> ExpectedId(c), flag |-> ErrorFlag(c), exit |-> ExitCode(TRUE, FALSE, ErrorFlag(c))])>>)
-          /\ todo' = todo \ {c}
-Spec == Init /\ [][Next]_todo
+          /\ todo' = todo \ {c} /\ UNCHANGED ctodo
+NextCli == todo = {} /\ ctodo # {} /\ LET c == CHOOSE x \in ctodo : TRUE IN
+          /\ PrintT(<<"CLI", ToJson([c |-> c, exit |-> CliExit(c), prints |-> CliPrints(c), id |-> c.out])>>)
+          /\ ctodo' = ctodo \ {c} /\ UNCHANGED todo
+Spec == Init /\ [][Next \/ NextCli]_<<todo, ctodo>>
 \* the expectation does not depend on how the caller names the directory, where it stands, or on nesting
 Independent == \A a, b \in Configs : (a.out = b.out /\ a.explicit = b.explicit) => (ExpectedId(a) = ExpectedId(b) /\ ErrorFlag(a) = ErrorFlag(b))
 ASSUME Independent
